@@ -45,6 +45,8 @@ pub struct TestHost {
     /// instead of answering inline (C13)
     pub interrupt_at:  Vec<usize>,
     pub interrupts:    u64,
+    pub calls_tracked: u64,
+    pub returns_tracked: u64,
 }
 
 /// An interrupt raised by a scripted host call: the value with which the execution must be resumed.
@@ -116,11 +118,15 @@ impl Host<ArtifactNamedImport> for TestHost {
     fn track_call(&mut self) -> RunResult<()> {
         anyhow::ensure!(self.depth < MAX_DEPTH, "call depth exceeded");
         self.depth += 1;
+        self.calls_tracked += 1;
         self.max_depth = self.max_depth.max(self.depth);
         Ok(())
     }
 
-    fn track_return(&mut self) { self.depth = self.depth.saturating_sub(1); }
+    fn track_return(&mut self) {
+        self.returns_tracked += 1;
+        self.depth = self.depth.saturating_sub(1);
+    }
 }
 
 pub fn limbs_to_u64(v: &J) -> u64 {
@@ -244,6 +250,13 @@ pub fn same_observation(a: &Observed, b: &Observed) -> Option<String> {
     }
     if a.host.host_calls != b.host.host_calls {
         return Some(format!("host calls {:?} vs {:?}", a.host.host_calls, b.host.host_calls));
+    }
+    if (a.host.calls_tracked, a.host.returns_tracked, a.host.max_depth, a.host.depth) != (b.host.calls_tracked, b.host.returns_tracked, b.host.max_depth, b.host.depth) {
+        return Some(format!(
+            "call-depth bookkeeping (track_call, track_return, max depth, final depth) {:?} vs {:?}",
+            (a.host.calls_tracked, a.host.returns_tracked, a.host.max_depth, a.host.depth),
+            (b.host.calls_tracked, b.host.returns_tracked, b.host.max_depth, b.host.depth)
+        ));
     }
     None
 }
